@@ -299,10 +299,11 @@ impl Scenario for Gossip {
         let setp = gen_setp(rng, u16reg);
         let nodes = rng.urange(2, 6);
         let slots = rng.urange(1, 4);
-        let usize_ = rng.log_range(2, if big { 20000 } else { 600 }) as usize;
+        // a SetSketch item costs up to m steps: bound (items delivered + items re-sketched at checkpoints) x m
+        let usize_ = rng.log_range(2, if big { (10_000_000 / m as u64).max(50) } else { 600 }) as usize;
         let universe = gen_items(rng, usize_, ElemT::U64);
         let overlap = rng.chance(0.5);
-        let nev = rng.log_range(3, if big { 400 } else { 120 }) as usize;
+        let nev = rng.log_range(3, if big { 100 } else { 120 }) as usize;
         let mut events = vec![];
         let p_merge = *rng.pick(&[0.05, 0.15, 0.3]);
         let p_bad = *rng.pick(&[0.0, 0.03, 0.1]);
@@ -357,7 +358,7 @@ impl Scenario for Gossip {
                 if rng.chance(0.6) {
                     events.push(GEv::Deliver { node, item: pickitem(rng) });
                 } else {
-                    let k = rng.log_range(1, (universe.len() as u64).min(if big { 5000 } else { 200 })) as usize;
+                    let k = rng.log_range(1, (universe.len() as u64 / if big { 10 } else { 1 }).clamp(1, 200)) as usize;
                     let items = (0..k).map(|_| pickitem(rng)).collect();
                     events.push(GEv::Chunk { node, items });
                 }
@@ -628,7 +629,8 @@ impl Scenario for Parsum {
         };
         let setp = gen_setp(rng, u16reg);
         let source = *rng.pick(&[0u8, 0, 0, 0, 1, 2, 2, 3]);
-        let n_items = rng.log_range(1, 3000) as usize;
+        // a SetSketch item costs up to m steps
+        let n_items = (rng.log_range(1, 3000) as usize).min(4_000_000 / m.max(1)).max(1);
         ParsumPlan { u16reg, m, setp, source, n_items, reg_seed: rng.u64(), sched_seed: rng.u64() }
     }
     fn execute(&self, plan: &ParsumPlan, ctx: &mut Ctx) -> Result<(), Violation> {
